@@ -90,6 +90,13 @@ func runC01(c *rt.Ctx) {
 	if c.Thorough() {
 		maxLen, depth = 4, 0
 	}
+	// the batching pool as L1 (memproxy --l1-batched): every command goes through the real relay,
+	// batcher and reader goroutines under the virtual clock
+	for _, o := range []string{"l1only", "l1l2", "l1l2b"} {
+		for _, p := range []string{"binary", "text"} {
+			cfgs = append(cfgs, Cfg{Orca: o, Lock: "none", Proto: p, L1H: "batched"})
+		}
+	}
 	totalStates, totalTrans := 0, 0
 	for i, cfg := range cfgs {
 		if !c.Mine(i) {
